@@ -31,6 +31,11 @@ CHECKS = {
                      "MUST => code => MUST-NOT envelope of DESIGN section 8.1; searched kinds and roots are part of the paths. increment_decrement: ALL minus EXEMPT with "
                      "EXEMPT = prefix forms below statements of unchecked blocks. The numeric meaning of power-of-two is std's is_power_of_two on the parsed literal.",
                 note=_MIR + "; the oracle is specs/detectors.spec (DESIGN section 8); C01 for 'anywhere in the file'"),
+    "C06": dict(level="other", design_ref="5/C06 + section 8.2", technique="detector summaries vs written spec by ROBDD implication, summary of the shared state-variable table, cross-item isolation rules over loops (static analysis)",
+                text="The five declaration-level detectors satisfy MUST => code => envelope of DESIGN section 8.2 (condition and reported location), the shared "
+                     "state-variable table enters exactly the specified members, and a verdict depends only on the declaration's own contract: bound witnesses range "
+                     "over the same contract, no mutable local is carried across a file-wide loop, no file-wide loop is left early.",
+                note=_MIR + "; specs/detectors.spec is the oracle; unique state-variable names (property quantifier)"),
     "C07": dict(level="other", design_ref="5/C07 + section 8.3", technique="detector summaries with expanded helper predicates (own bound variables), loop cursors as regular access paths, compared with the written spec by ROBDD implication (static analysis)",
                 text="The four vulnerability detectors satisfy MUST => code => envelope of DESIGN section 8.3, including unprotected_selfdestruct's visibility filter, "
                      "constructor skip, 'only' modifier test and protective-call scan with its skip set, and the regular left-spine paths of divide_before_multiply.",
